@@ -234,7 +234,11 @@ def run(tier, repo):
     for name in ("parse_tls_extension", "parse_tls_client_hello_extension", "parse_tls_server_hello_extension"):
         pth = "tls_extensions::" + name
         if pth in cache or F.fn(pth):
-            seq = cache.get(pth) or code_seq(F, pth)[0]
+            try:
+                seq = cache.get(pth) or code_seq(F, pth)[0]
+            except Opaque as o:
+                rp.fail("UNKNOWN-FALLBACK", name + "/unrecognised", site(F.fn(pth)), "construct the analysis cannot read: %s" % o)
+                continue
             consts = []
             def grab(st, p_):
                 if st[0] == "switch" and not consts:
@@ -249,7 +253,11 @@ def run(tier, repo):
         if f is None:
             rp.fail("UNCONSTRAINED", key + "/missing", path, "parser %s not found" % path)
             continue
-        seq = code_seq(F, path)[0]
+        try:
+            seq = code_seq(F, path)[0]
+        except Opaque as o:
+            rp.fail("UNCONSTRAINED", key + "/unrecognised", site(f), "construct the analysis cannot read: %s" % o)
+            continue
         D = defs(seq)
         try:
             sym = resolve(seq["ret"][1], acc, D)
